@@ -7,6 +7,12 @@ open Driver ScionTime.ScionSrv
   srv.handle mode= mock= sock= svc= dscp= hop= tc= sia= dia= st= dt= sa= da= pt= path= rev=
              hbh= e2e= pre= auth= l4= scmp= sp= dp= ulen= pld= mac= ntp=
       -> ok drop | ok reply <fields> | ok forward to=<addr>:<port> same=1 | panic <class>
+  srv.fwd <the keys of srv.handle> zone=sw|none tso=0|1|2 post=0|1
+      -> as srv.handle, a forward being
+         ok forward to=<addr>:<port> same=1 chain=[hbh+][e2e+]udp hbh=<opts> e2e=<opts> amac=none|ok|bad
+         | ok forward to=<addr>:<port> garbled
+     (forwarding branch on packets with extension headers, listener with / without kernel rx
+      timestamps; harness/cmd/c13/fwdext.go)
   auth.meta <hex>                 -> ok <spi> <alg> | panic ...
   auth.mac <hex>                  -> ok <hex> | panic ...
   auth.prepare <hex> <spi> <alg>  -> ok <hex> 2 4:2 | panic index
@@ -46,6 +52,35 @@ def fmtAuth : Option (List Nat) → String
   | none => "none"
   | some m => s!"{m.getD 3 0 + m.getD 2 0 * 256 + m.getD 1 0 * 65536 + m.getD 0 0 * 16777216}:{m.getD 4 0}"
 
+def fmtEOpt : EOpt → String
+  | .recv t d => s!"{t}:{toHex d}"
+  | .ownTs => "253:ts"
+
+def fmtOpts (present : Bool) (xs : List String) : String :=
+  if !present then "none" else if xs.isEmpty then "-" else ",".intercalate xs
+
+/-- The forwarded packet's authenticator re-verified by the end host: the option is the received
+    one, the covered bytes are forwarded unchanged, so the verdict is that of the received packet
+    (`mac=` oracle against the option's MAC field). -/
+def fmtAmac (p : Pkt) (w : Wire) : String :=
+  match w.auth, p.mac with
+  | some d, some m =>
+    if d.length = optDataLen ∧ m.length = macLen then (if d.drop metadataLen = m then "ok" else "bad") else "none"
+  | _, _ => "none"
+
+/-- the driver's hop-by-hop extensions hold one option as type, length, data -/
+def fmtHbh (w : Wire) : String :=
+  match w.hbh with
+  | some (_, t :: _ :: d) => s!"{t}:{toHex d}"
+  | _ => "?"
+
+/-- answer of op srv.fwd for a forward: the re-parsed extension headers. -/
+def fmtForwardExt (f : Fwd) : String :=
+  let w := f.wire
+  if !w.parses then s!"ok forward to={toHex f.toAddr}:{f.toPort} garbled" else
+  let chain := (if w.hbh.isSome then "hbh+" else "") ++ (if w.e2e.isSome then "e2e+" else "") ++ "udp"
+  s!"ok forward to={toHex f.toAddr}:{f.toPort} same=1 chain={chain} hbh={fmtOpts w.hbh.isSome [fmtHbh w]} e2e={fmtOpts w.e2e.isSome ((w.e2e.getD []).map fmtEOpt)} amac={fmtAmac f.pkt w}"
+
 def fmtOutcome : Outcome → String
   | .drop r => s!"ok drop #b{r}"
   | .panic c => s!"panic {c}"
@@ -65,11 +100,29 @@ def parseRev? (s : String) : Option (Option (Nat × List Nat)) :=
     | _, _ => none
   | _ => none
 
-def srvHandle (toks : List String) : String :=
+def valuesOf? (keys toks : List String) : Option (List String) :=
+  if toks.length ≠ keys.length then none else
+  (toks.zip keys).mapM fun (t, k) =>
+    if t.startsWith (k ++ "=") ∧ t.length > k.length + 1 then some (t.drop (k.length + 1)).toString else none
+
+/-- data of an option of the dispatcher's timestamp type put in by the sender (harness constant) -/
+def senderTsData : List Nat := (List.range 16).map (240 + ·)
+
+def srvHandleG (fwd : Bool) (toks : List String) : String :=
+  let (toks, ext) := if fwd then (toks.take keyOrder.length, toks.drop keyOrder.length) else (toks, [])
   match values? toks with
   | some [mode, mock, sock, svc, dscp, hop, tc, sia, dia, st, dt, sa, da, pt, path, rev,
           hbh, e2e, pre, auth, l4, scmp, sp, dp, ulen, pld, mac, ntp] =>
     let r : Option String := do
+      -- op srv.fwd: zone= tso= post=
+      let (zone, tso, post) ← (if !fwd then some ("sw", 0, 0) else
+        match valuesOf? ["zone", "tso", "post"] ext with
+        | some [z, t, po] => do
+          let t ← num? t 0 2
+          let po ← num? po 0 1
+          if z ≠ "sw" ∧ z ≠ "none" then none
+          pure (z, t, po)
+        | _ => none)
       let mock ← num? mock 0 1
       let svc ← num? svc 1 65535
       let dscp ← num? dscp 0 255
@@ -84,7 +137,7 @@ def srvHandle (toks : List String) : String :=
       let pt ← num? pt 0 255
       let path ← lowerHex? path
       let rev ← parseRev? rev
-      let _ ← num? hbh 0 1
+      let hbh ← num? hbh 0 (if fwd then 40 else 1)  -- srv.fwd: hop-by-hop option (201, hbh+1 bytes 09)
       let e2e ← num? e2e 0 1
       let pre ← num? pre 0 1
       let auth ← (if auth = "none" then some none else (lowerHex? auth).map some)
@@ -124,22 +177,33 @@ def srvHandle (toks : List String) : String :=
           -- in (the fetch chain is transparent: C13_fetcher_transparent, C13_listener_key_valid)
           serverCfg svc (if sock = "eh" then EndhostPort else svc) dscp false false true
         else dispatcherCfg
+      -- srv.fwd: the same well-formedness conditions as the harness (fwdWellFormed)
+      if fwd ∧ e2e = 0 ∧ (tso ≠ 0 ∨ post ≠ 0) then none
+      if fwd ∧ zone = "none" ∧ ¬ (mode = "disp" ∨ (mode = "srv" ∧ mock = 1)) then none
+      if fwd ∧ mode ≠ "disp" ∧ mode ≠ "srv" then none
+      if fwd ∧ ulen.startsWith "tail" then none
+      -- the options the harness serialises, in its order
+      let opts : List (Nat × List Nat) :=
+        (if tso = 1 then [(253, senderTsData)] else []) ++ (if pre = 1 then [(200, [1, 2, 3, 4])] else []) ++
+        (match auth with | some d => [(2, d)] | none => []) ++ (if post = 1 then [(202, [7, 7, 7, 7, 7])] else []) ++
+        (if tso = 2 then [(253, senderTsData)] else [])
       let p : Pkt :=
         { lastHop := hop, tc := tc, srcIA := sia, dstIA := dia, srcType := st, dstType := dt,
           srcAddr := sa, dstAddr := da, pathType := pt, path := path, rev := rev, l4 := l4,
           srcPort := sp, dstPort := dp, udpLenOk := ulenOk, e2e := e2e = 1, auth := auth,
-          mac := mac, payload := pld, ntpOk := ntpOk }
-      pure (fmtOutcome (handle cfg p))
+          mac := mac, payload := pld, ntpOk := ntpOk,
+          hbh := if hbh ≥ 1 then some ([201, hbh + 1] ++ List.replicate (hbh + 1) 9) else none,
+          opts := opts, stamp := zone = "sw" }
+      match fwd, handle cfg p with
+      | true, .forward f => pure (fmtForwardExt f)
+      | _, o => pure (fmtOutcome o)
     r.getD "bad-op"
   | _ => "bad-op"
 
+def srvHandle (toks : List String) : String := srvHandleG false toks
+
 def identKeys : List String :=
   ["sock", "hopa", "hopb", "asia", "ast", "asa", "bsia", "bst", "bsa", "aia", "ahost", "bia", "bhost"]
-
-def valuesOf? (keys toks : List String) : Option (List String) :=
-  if toks.length ≠ keys.length then none else
-  (toks.zip keys).mapM fun (t, k) =>
-    if t.startsWith (k ++ "=") ∧ t.length > k.length + 1 then some (t.drop (k.length + 1)).toString else none
 
 def srvIdent (toks : List String) : String :=
   match valuesOf? identKeys toks with
@@ -170,6 +234,7 @@ def fmtRes {α : Type} (f : α → String) : Res α → String
 def step (_ : Unit) (toks : List String) : Unit × String :=
   match toks with
   | "srv.handle" :: rest => ((), srvHandle rest)
+  | "srv.fwd" :: rest => ((), srvHandleG true rest)
   | "srv.ident" :: rest => ((), srvIdent rest)
   | ["id.text", n] =>
     match num? n 0 18446744073709551615 with
